@@ -40,6 +40,26 @@ class PolarizationState:
             self.Ex /= mag
             self.Ey /= mag
 
+    def to_dict(self):
+        """Convert the polarization state to a dictionary."""
+        return {
+            'is_polarized': self.is_polarized,
+            'Ex': self.Ex,
+            'Ey': self.Ey,
+            'phase_x': self.phase_x,
+            'phase_y': self.phase_y
+        }
+
+    @classmethod
+    def from_dict(cls, data):
+        """Create a polarization state from a dictionary."""
+        state = cls(data['is_polarized'], data['Ex'], data['Ey'],
+                    data['phase_x'], data['phase_y'])
+        # keep the stored (already normalised) amplitudes exactly
+        state.Ex = data['Ex']
+        state.Ey = data['Ey']
+        return state
+
     def __str__(self):
         """
         Returns a string representation of the polarization state.
